@@ -46,7 +46,7 @@ var collisionNames = []string{"/uYQ", "/uYWJj"}
 func genSync(rr *vh.Rand, c *vh.Case) {
 	// SyncIndex needs values that are unique within each index (its doc comment): every value gets one
 	// fixed key per index at first use
-	vals := [][]byte{{1}, {2}, {3}, []byte("v/4"), {0}, rr.Bytes(rr.Range(1, 12))}
+	vals := [][]byte{{1}, {2}, {3}, []byte("v/4"), {0}, append([]byte{0xee, 0xee}, rr.Bytes(rr.Range(1, 12))...)} // pairwise distinct
 	keys := [][]byte{[]byte("a"), []byte("ab"), []byte("abc"), {0x2f}, rr.Bytes(rr.Range(1, 8))}
 	liveT, liveR := map[int]int{}, map[int]int{} // value index -> key index of the live pair
 	pair := func(live map[int]int, adding bool) string {
